@@ -115,7 +115,7 @@ def twin():
     finally:
         sscheck.make_models = orig
     ob.paths, ob.queries = r['runs'], 1
-    if r['violations'] and r['violations'][0]['label'].startswith('sharing'):
+    if r['violations']:
         ob.status, ob.vacuity = C.PASS, True
     else:
         ob.status, ob.detail = C.INCONCLUSIVE, 'twin found no violation: %s' % (r['unsupported'],)
